@@ -480,3 +480,40 @@ pub fn i256_div_mod_floor(
     }
     Some((q, r))
 }
+
+/// Entry points for the verification machinery in /verif (replay of solver
+/// counterexamples against the private wide-arithmetic kernels).
+/// Only compiled with `--cfg fpdec_verif`.
+#[cfg(fpdec_verif)]
+#[doc(hidden)]
+pub mod verif_hooks {
+    pub fn u128_mul_u128(x: u128, y: u128) -> (u128, u128) {
+        super::u128_mul_u128(x, y)
+    }
+
+    pub fn u128_msb(i: u128) -> u8 {
+        super::u128_msb(i)
+    }
+
+    pub fn u256_idiv_u64(xh: u128, xl: u128, y: u64) -> (u128, u128, u128) {
+        let (mut h, mut l) = (xh, xl);
+        let r = super::u256_idiv_u64(&mut h, &mut l, y);
+        (h, l, r)
+    }
+
+    pub fn u256_idiv_u128_special(
+        xh: u128,
+        xl: u128,
+        y: u128,
+    ) -> (u128, u128, u128) {
+        let (mut h, mut l) = (xh, xl);
+        let r = super::u256_idiv_u128_special(&mut h, &mut l, y);
+        (h, l, r)
+    }
+
+    pub fn u256_idiv_u128(xh: u128, xl: u128, y: u128) -> (u128, u128, u128) {
+        let (mut h, mut l) = (xh, xl);
+        let r = super::u256_idiv_u128(&mut h, &mut l, y);
+        (h, l, r)
+    }
+}
